@@ -13,7 +13,7 @@ def cfg_for(rng, sensitive):
     if sensitive:
         typ = ['x', '(tap-hold 0 %d y lctl)' % rng.choice([20, 50]), 'lsft', '(one-shot 50 lalt)']
     opts = 'dynamic-macro-replay-delay-behaviour %s dynamic-macro-max-presses %d' % (
-        rng.choice(['constant', 'recorded']), rng.choice([3, 8, 128]))
+        rng.choice(['constant', 'recorded']), rng.choice([3, 8, 128, 128, 32767, 32768, 65535]))
     acts = typ + ['(dynamic-macro-record 1)', 'dynamic-macro-record-stop', '(dynamic-macro-play 1)',
                   rng.choice(['(dynamic-macro-record 2)', '(dynamic-macro-play 2)', '(multi (dynamic-macro-play 1) x)']),
                   '(dynamic-macro-record-stop-truncate %d)' % rng.randint(0, 3), '(dynamic-macro-record 2)', '(dynamic-macro-play 2)']
@@ -143,7 +143,7 @@ def oracle(case, it):
                     play_inside = True
             tag = ' [endless-replay]' if (last > tot - 80 and play_inside) else ''
             return 'keys left down at the end: [%s]%s' % (m.group(1), tag)
-    if case.get('kind') == 'simple' and not case.get('sensitive') and 'max-presses 128' in case['cfg'] and 'u%d' % C['l'] not in case['hist']:
+    if case.get('kind') == 'simple' and not case.get('sensitive') and re.search(r'max-presses (128|32767|32768|65535)', case['cfg']) and 'u%d' % C['l'] not in case['hist']:
         # locate the tick at which play was pressed
         t = 0
         t_play = None
